@@ -26,9 +26,9 @@ import (
 // not-ready timers through the verif hook VerifShiftNotReadyTimers (both runs get the same shifts).
 
 type k8sStep struct {
-	A     string `json:"a"`     // ready | notready | updating
-	B     string `json:"b"`     // absent (only as a whole) | ready | notready | updating
-	Shift int    `json:"shift"` // seconds that pass before this cycle
+	A     string `json:"a"`                   // ready | notready | updating
+	B     string `json:"b"`                   // absent (only as a whole) | ready | notready | updating
+	Shift int    `json:"shift"`               // seconds that pass before this cycle
 	NoAPI bool   `json:"listFails,omitempty"` // the API server does not answer the StatefulSet listing in this cycle
 }
 
